@@ -78,6 +78,8 @@ pub struct ACfg {
     pub readers: Vec<ReaderCfg>,
     pub max_steps: u64,
     pub hash_seed: u64,
+    /// non-empty: ping-pong scheduler with these quanta (thread 0 = writer host, 1.. = readers)
+    pub pingpong: Vec<u32>,
 }
 
 // ------------------------------------------------------------------------------------------
@@ -128,7 +130,7 @@ impl ACfg {
     pub fn to_json(&self) -> Value {
         json!({
             "weak": self.weak, "stale_ppm": self.stale_ppm, "switch_ppm": self.switch_ppm, "pct_depth": self.pct_depth,
-            "field_perm": self.field_perm, "init": corrupt_json(&self.init), "max_steps": self.max_steps, "hash_seed": self.hash_seed,
+            "field_perm": self.field_perm, "init": corrupt_json(&self.init), "max_steps": self.max_steps, "hash_seed": self.hash_seed, "pingpong": self.pingpong,
             "incs": self.incs.iter().map(|i| json!({
                 "writes": i.writes, "kill_at": i.kill_at, "io_err": i.io_err.map(|(a,b)| vec![a,b]),
                 "corrupt_before": corrupt_json(&i.corrupt_before), "gap_ns": i.gap_ns, "write_gap_ns": i.write_gap_ns})).collect::<Vec<_>>(),
@@ -151,6 +153,7 @@ impl ACfg {
             init: corrupt_from(&v["init"]),
             max_steps: u(&v["max_steps"]),
             hash_seed: u(&v["hash_seed"]),
+            pingpong: v["pingpong"].as_array().map(|a| a.iter().map(|x| u(x) as u32).collect()).unwrap_or_default(),
             incs: v["incs"]
                 .as_array()
                 .map(|a| {
@@ -227,6 +230,9 @@ pub enum Profile {
     DeadWriter,
     /// writer updates continuously while readers retry (C18, C02)
     Busy,
+    /// adversarial alternation: every copy of the reader is disturbed by a complete update, for
+    /// as long as the call lasts (C18: the retry budget must bound the call)
+    Flood,
 }
 
 impl Profile {
@@ -241,6 +247,7 @@ impl Profile {
             "sleeper" => Profile::Sleeper,
             "deadwriter" => Profile::DeadWriter,
             "busy" => Profile::Busy,
+            "flood" => Profile::Flood,
             _ => return None,
         })
     }
@@ -255,6 +262,7 @@ impl Profile {
             Profile::Sleeper => "sleeper",
             Profile::DeadWriter => "deadwriter",
             Profile::Busy => "busy",
+            Profile::Flood => "flood",
         }
     }
 }
@@ -287,6 +295,7 @@ pub fn gen_config(profile: Profile, run_seed: u64, index: u64) -> ACfg {
         readers: Vec::new(),
         max_steps: 200_000,
         hash_seed: r.next(),
+        pingpong: Vec::new(),
     };
     if r.chance(20) {
         cfg.switch_ppm = 0;
@@ -398,6 +407,24 @@ pub fn gen_config(profile: Profile, run_seed: u64, index: u64) -> ACfg {
                 probe_apis: false,
                 reopen_each_call: false,
             });
+        }
+        Profile::Flood => {
+            cfg.weak = false;
+            cfg.stale_ppm = 0;
+            cfg.pct_depth = 0;
+            cfg.field_perm = false;
+            cfg.max_steps = 150_000_000;
+            cfg.init = Corrupt::SetValid { gen: gen_biased(&mut r) & !1 | 2 };
+            // a whole update (12 steps) or a bit more/less per reader quantum of 3..11 steps
+            // the writer's quantum is not a multiple of its 12-step update, so the phase at which the
+            // reader's calls begin drifts until one starts on an even generation
+            cfg.pingpong = vec![*r.pick(&[13u32, 13, 17]), r.range(8, 10) as u32];
+            cfg.incs.push(IncCfg { writes: u32::MAX, kill_at: None, io_err: None, corrupt_before: Corrupt::None, gap_ns: 0, write_gap_ns: 0 });
+            let mut rd = gen_reader(&mut r, 2, false);
+            rd.start_ns = 0;
+            rd.retry_ns = 20;
+            rd.calls = (0..40).map(|_| CallCfg { gap_ns: 0, sync_before: false }).collect();
+            cfg.readers.push(rd);
         }
         Profile::DeadWriter => {
             cfg.weak = false;
@@ -617,11 +644,17 @@ pub struct AState {
     reader_access_in_write: bool,
     corruptions: u32,
     attached: u32,
+    readers_finished: u32,
     wiped_this_inc: bool,
     /// the record bytes in the file stem from an injected corruption, not from a publication
     content_untrusted: bool,
     max_loads_in_call: u64,
     sample_hist: Vec<Value>,
+    /// no corruption in this run: the backing file keeps its inode, so one descriptor serves all reads
+    stable_file: bool,
+    cached_fd: i32,
+    /// generation as last stored/imported (tracked from the event stream)
+    live_gen: Option<u16>,
 }
 
 fn file_ino(p: &Path) -> u64 {
@@ -654,10 +687,14 @@ impl AState {
             reader_access_in_write: false,
             corruptions: 0,
             attached: 0,
+            readers_finished: 0,
             wiped_this_inc: false,
             content_untrusted: false,
             max_loads_in_call: 0,
             sample_hist: Vec::new(),
+            stable_file: false,
+            cached_fd: -1,
+            live_gen: None,
         }
     }
 
@@ -671,8 +708,23 @@ impl AState {
         self.published.last().map(|p| p.k).unwrap_or(-2)
     }
 
-    fn live_header(&self) -> Option<PSegment> {
-        read_file_bytes(&self.path).filter(|b| b.len() >= 16).map(|b| decode_segment(&b))
+    fn file_bytes(&mut self) -> Option<Vec<u8>> {
+        if !self.stable_file {
+            return read_file_bytes(&self.path);
+        }
+        if self.cached_fd < 0 {
+            use std::os::unix::ffi::OsStrExt;
+            let c = CString::new(self.path.as_os_str().as_bytes()).ok()?;
+            self.cached_fd = unsafe { libc::open(c.as_ptr(), libc::O_RDONLY | libc::O_CLOEXEC) };
+            if self.cached_fd < 0 {
+                return None;
+            }
+        }
+        Some(pread_fd(self.cached_fd, 4096))
+    }
+
+    fn live_header(&mut self) -> Option<PSegment> {
+        self.file_bytes().filter(|b| b.len() >= 16).map(|b| decode_segment(&b))
     }
 
     // ---- called directly by harness threads (they hold the baton) ----
@@ -687,7 +739,7 @@ impl AState {
         self.w_active = true;
         self.w_gen_stores.clear();
         self.w_field_stores = 0;
-        self.w_gen_at_begin = self.live_header().map(|h| h.generation);
+        self.w_gen_at_begin = if self.stable_file && self.live_gen.is_some() { self.live_gen } else { self.live_header().map(|h| h.generation) };
         for r in self.readers.iter_mut() {
             if r.call.active {
                 r.call.writer_began_during = true;
@@ -697,7 +749,7 @@ impl AState {
 
     fn write_end(&mut self, k: i64) {
         self.w_active = false;
-        let gen_now = self.live_header().map(|h| h.generation).unwrap_or(0);
+        let gen_now = if self.stable_file && self.live_gen.is_some() { self.live_gen.unwrap() } else { self.live_header().map(|h| h.generation).unwrap_or(0) };
         // C11: shape of the generation sequence of one complete update
         let g0 = self.w_gen_at_begin.unwrap_or(0);
         let expect_odd = if g0 & 1 == 0 { g0.wrapping_add(1) } else { g0 };
@@ -734,7 +786,12 @@ impl AState {
         self.content_untrusted = false;
         self.out.nontrivial.insert("C11");
         // C17 layout: the file must now decode, by the documented layout, to exactly record k
-        if let Some(b) = read_file_bytes(&self.path) {
+        // (every publication at first, then a sample: long runs publish millions of records)
+        let np = self.published.len();
+        if np > 256 && np % 1024 != 0 {
+            return;
+        }
+        if let Some(b) = self.file_bytes() {
             let s = decode_segment(&b);
             if b.len() < P_TOTAL {
                 // a valid header over a short body was taken over in place: nothing documented about its length
@@ -1000,8 +1057,13 @@ impl Observer for AObserver {
                 }
                 if loc == LOC_GEN {
                     let g = ev.b as u16;
+                    s.live_gen = Some(g);
                     if s.w_active {
                         s.w_gen_stores.push(g);
+                    } else {
+                        // the generation is the protocol's only synchronisation variable: outside an
+                        // update nothing may move it (a crashed update stays odd until one completes)
+                        s.out.violate(&["C11", "C04"], "generation_store_outside_update", format!("to={}", classify_gen(g)), format!("generation set to {g} outside of an update (in ShmWriter::new or elsewhere)"));
                     }
                     if g == 0 && s.seg_published {
                         s.out.violate(&["C11"], "generation_zero", "store".into(), "generation 0 stored into a segment that had been published to".into());
@@ -1044,6 +1106,7 @@ impl Observer for AObserver {
                 }
             }
             EvKind::Import if (ev.a & 0xff) as usize == LOC_GEN => {
+                s.live_gen = Some(ev.b as u16);
                 if ev.b == 0 && s.seg_published {
                     s.out.violate(&["C11"], "generation_zero", "file_write".into(), "generation 0 written to a segment that had been published to".into());
                 }
@@ -1271,7 +1334,12 @@ fn reader_thread(ri: usize, cfg: ReaderCfg, path: PathBuf, st: Arc<Mutex<AState>
                 Err(_) => 1,
             };
             verif_rt::mark("r:end", ri as u64, ci as u64, code);
+            let failed = res.is_err();
             st.lock().unwrap().call_end(ri, res);
+            if failed && cfg.calls.len() > 8 {
+                // flood profile: one exhausted retry budget is the scenario
+                break;
+            }
             if cfg.reopen_each_call {
                 reader = None;
                 guard.2 = false;
@@ -1280,6 +1348,7 @@ fn reader_thread(ri: usize, cfg: ReaderCfg, path: PathBuf, st: Arc<Mutex<AState>
         }
         drop(reader);
     });
+    st.lock().unwrap_or_else(|e| e.into_inner()).readers_finished += 1;
 }
 
 fn writer_host(cfg: ACfg, path: PathBuf, st: Arc<Mutex<AState>>, wake_tx: Option<verif_rt::mpsc::Sender<()>>) {
@@ -1331,6 +1400,9 @@ fn writer_host(cfg: ACfg, path: PathBuf, st: Arc<Mutex<AState>>, wake_tx: Option
             };
             verif_rt::mark("new:ok", 0, 0, 0);
             for j in 0..inc.writes {
+                if inc.writes == u32::MAX && st.lock().unwrap().readers_finished as usize >= cfg.readers.len() {
+                    break;
+                }
                 let k = next_k;
                 next_k += 1;
                 st.lock().unwrap().write_begin(k);
@@ -1421,6 +1493,7 @@ pub fn run(cfg: &ACfg, run_seed: u64, replay: Option<Vec<u32>>, trace: bool, san
     apply_corruption(&path, &cfg.init);
     let st = Arc::new(Mutex::new(AState::new(path.clone(), cfg.weak, cfg.readers.len())));
     st.lock().unwrap().content_untrusted = !matches!(cfg.init, Corrupt::None | Corrupt::SetValid { .. });
+    st.lock().unwrap().stable_file = matches!(cfg.init, Corrupt::SetValid { .. }) && cfg.incs.iter().all(|i| i.corrupt_before == Corrupt::None);
     let mut faults = Vec::new();
     for (i, inc) in cfg.incs.iter().enumerate() {
         if let Some(at) = inc.kill_at {
@@ -1433,7 +1506,9 @@ pub fn run(cfg: &ACfg, run_seed: u64, replay: Option<Vec<u32>>, trace: bool, san
     let ecfg = verif_rt::Cfg {
         weak: cfg.weak,
         stale_ppm: cfg.stale_ppm,
-        sched: if cfg.switch_ppm == 0 && cfg.pct_depth > 0 { verif_rt::Sched::Pct { depth: cfg.pct_depth, est_steps: 150 } } else { verif_rt::Sched::Random { switch_ppm: cfg.switch_ppm } },
+        sched: if !cfg.pingpong.is_empty() {
+            verif_rt::Sched::PingPong { quanta: cfg.pingpong.clone() }
+        } else if cfg.switch_ppm == 0 && cfg.pct_depth > 0 { verif_rt::Sched::Pct { depth: cfg.pct_depth, est_steps: 150 } } else { verif_rt::Sched::Random { switch_ppm: cfg.switch_ppm } },
         field_perm: cfg.field_perm,
         step_cost_ns: 10,
         max_steps: cfg.max_steps,
@@ -1496,9 +1571,13 @@ pub fn run(cfg: &ACfg, run_seed: u64, replay: Option<Vec<u32>>, trace: bool, san
         chrony: None,
         rt_off: None,
         procs,
-        watchdog: std::time::Duration::from_secs(120),
+        watchdog: std::time::Duration::from_secs(if cfg.max_steps > 1_000_000 { 900 } else { 20 }),
     });
     let mut s = st.lock().unwrap();
+    if s.cached_fd >= 0 {
+        unsafe { libc::close(s.cached_fd) };
+        s.cached_fd = -1;
+    }
     let mut out = std::mem::take(&mut s.out);
     if s.reader_access_in_write {
         out.nontrivial.insert("C02");
